@@ -114,6 +114,10 @@ impl ArgValidation for Expressions {
 
     fn require_string_ref(&self, index: usize) -> Result<(), LintErrorPos> {
         match self.expr(index) {
+            // a whole array, e.g. `LINE INPUT A$()`
+            Expression::ArrayElement(_, indices, _) if indices.is_empty() => {
+                Err(LintError::ArgumentTypeMismatch.at(&self[index]))
+            }
             Expression::Variable(_, expression_type)
             | Expression::ArrayElement(_, _, expression_type)
             | Expression::Property(_, _, expression_type) => {
@@ -129,6 +133,10 @@ impl ArgValidation for Expressions {
 
     fn require_variable_of_built_in_type(&self, index: usize) -> Result<(), LintErrorPos> {
         match self.expr(index) {
+            // a whole array, e.g. `INPUT A()`
+            Expression::ArrayElement(_, indices, _) if indices.is_empty() => {
+                Err(LintError::ArgumentTypeMismatch.at(&self[index]))
+            }
             Expression::Variable(_, expression_type)
             | Expression::ArrayElement(_, _, expression_type)
             | Expression::Property(_, _, expression_type) => match expression_type {
